@@ -69,6 +69,15 @@ Clauses(o, ev, o2) ==
                        ELSE "after-response"
             IN (IF \E k \in 1..n : NotClosed(k) THEN <<F("not-closed", Ctx)>> ELSE <<>>)
             \o (IF \E k \in 1..(IF n > 0 THEN n - 1 ELSE 0) : Stalled(k) THEN <<F("pipeline-stalled", "")>> ELSE <<>>)
+            \* ... or was started but is not being fed: the client has sent the whole request, the exchange before
+            \* it is complete, the connection is healthy, and the application still waits for the rest of its body
+            \o (IF \E k \in 2..n :
+                      LET b == o.order[k] a == o.order[k - 1] IN
+                      /\ Reusable(o, a) /\ Wire(o, a).ends > 0
+                      /\ Req(o, b).done /\ ~Req(o, b).bad /\ Req(o, b).kind = "http"
+                      /\ App(o, b).started > 0 /\ App(o, b).parked = "recv" /\ App(o, b).ended = 0 /\ App(o, b).disc = 0
+                      /\ Connected(o) /\ ~o.shut /\ ~o.cerr /\ ~o.paused
+                THEN <<F("pipeline-stalled", "request-not-delivered")>> ELSE <<>>)
       [] OTHER -> <<>>
 
 MInit == [o |-> OInit, fails |-> <<>>]
